@@ -563,13 +563,12 @@ Definition cancel_answer_ok (s : wst) (o : N) (ans : option N) : bool :=
           && (if l =? STATUS_STARTING then true
               else if l =? STATUS_STARTED then negb (a =? STATUS_STARTED_CANCELLED)
               else a =? STATUS_RETURNED)
-      | KSt, None => true
       | k, Some w =>
           match alookup w (ready (w_h s)) with
           | Some (_, c) => a =? c            (* an undelivered completion: cancel reports exactly it *)
           | None => cancel_code_ok k a
           end
-      | _, None => true
+      | _, None => false                     (* no waitable: the intrinsic is not called, nothing to answer *)
       end
   end.
 
